@@ -142,19 +142,60 @@ def obligations(tier, seed):
                  contract_text='multiplicity(factor,n): requires n>0, factor>1: no division by zero, no wrap-around, terminates (decreases n)'))
     obs.append(D('C12.contract.gcd', 'gcd', '  uint64_t a, b;\n  f_%s(a, b);' % M['gcd'], must=('step', 'decreases|variant'),
                  contract_text='gcd(a,b): no division by zero; terminates (decreases b); result is non-zero unless both inputs are zero (value == mathematical gcd is ASSUMED)'))
-    # mul_mod: wrap-freedom and call-site preconditions (the recursive call and add_mod replaced by their contracts); own VCs, int-blast / z3 route
+    # ---- lemma-based exactness obligations: non-constant 64-bit multiplication / division and the specification functions are uninterpreted
+    # for CBMC; each arithmetic fact enters as an instance of a lemma that Lean + Mathlib checks in this run (vf/lemma.py, props/c12_lemmas.py)
+    import lemma as LM
+    from props import c12_lemmas as CL
+    obs.append(Ob(id='C12.lemmas.mulmod', prop='C12', group='C12.lemmas', kind='S', budget=600, body='', prelude='', wrappers=[], inputs=[],
+                  dfcc=dict(tool='lean', text=LM.lean_file(CL.MULMOD, CL.MULMOD_PRELUDE)),
+                  contract='Lean 4 + Mathlib accept: ' + '; '.join('%s (%s)' % (l.name, l.doc) for l in CL.MULMOD)))
     mm = M['mul_mod']
-    if tier == 'thorough': obs.append(Ob(id='C12.guarded.mul_mod', prop='C12', group='C12', prelude=PRE, wrappers=WRAPS, inputs=[('uint64_t', 'a'), ('uint64_t', 'b'), ('uint64_t', 'n')],
-                  body='''
+    mm_pre = 'v_n > 0 && v_b < v_n && (v_a < v_n || (v_a < 4294967296ULL && v_b < 4294967296ULL))'
+    obs.append(Ob(id='C12.exact.mul_mod', prop='C12', group='C12', prelude=PRE, wrappers=WRAPS, inputs=[('uint64_t', 'a'), ('uint64_t', 'b'), ('uint64_t', 'n')],
+                  body="""
   ASSUME(n > 0 && b < n && (a < n || (a < 4294967296ULL && b < 4294967296ULL)));
+  ASSUME(%s);   /* lemma mm_fast at (a, b, n) */
+  ASSUME(%s);   /* lemma mm_slow at (a, b, n) */
   uint64_t r = TARGET(a, b, n);
-  CHECK(r < n, "result-is-a-residue");
-''', kind='L', promote=False, wrap=True, budget=600,
-                  dfcc=dict(target=mm, replace=[M['add_mod']], contracts={mm: dict(CONTRACTS['mul_mod'], recursive_stub=True), M['add_mod']: CONTRACTS['add_mod']},
-                            assume=['WRAP:unsigned-mul mod.hh:67']),
-                  contract='mul_mod(a,b,n) under its call-site precondition: a*b in the fast path, a*chunk_size, num_chunks*chunk_size and a*leftover do not wrap, no division by zero, '
-                           'the recursive call and add_mod meet their preconditions, result < n.  ASSUMED (undecided after 15 min on every back end): a*leftover at mod.hh:67 does not wrap.  NOT proved: result == a*b mod n',
+  CHECK(r == SPEC_mulmod(a, b, n), "result-is-the-exact-residue-a-times-b-mod-n");
+  CHECK(r < n, "result-is-below-n");
+""" % (CL.mm_fast.inst(a='a', b='b', n='n'), CL.mm_slow.inst(a='a', b='b', n='n')),
+                  kind='L', promote=False, wrap=True, budget=300, defs=('LL2C_UF_ARITH=1',), needs=('C12.lemmas.mulmod',),
+                  dfcc=dict(target=mm, replace=[M['add_mod']],
+                            contracts={mm: dict(requires=[mm_pre], ensures=['%s == SPEC_mulmod(v_a, v_b, v_n)' % RV, '%s < v_n' % RV], assigns='',
+                                                recursive_stub=True, rec_variant='v_a'),
+                                       M['add_mod']: CONTRACTS['add_mod']}),
+                  contract='mul_mod(a,b,n) under its call-site precondition (n > 0, b < n, a < n or both below 2^32) returns EXACTLY a*b mod n; a*b in the fast path, a*chunk_size, '
+                           'num_chunks*chunk_size and a*leftover do not wrap, the subtractions do not wrap, no division by zero, the recursive call (replaced by this contract) and add_mod '
+                           '(replaced by its proved contract) meet their preconditions, and the recursion terminates (variant: first argument). Arithmetic by lemmas mm_fast, mm_slow (Lean)',
                   functions_under_contract=('au::detail::mul_mod',)))
+    obs.append(Ob(id='C12.lemmas.powmod', prop='C12', group='C12.lemmas', kind='S', budget=600, body='', prelude='', wrappers=[], inputs=[],
+                  dfcc=dict(tool='lean', text=LM.lean_file(CL.POWMOD, CL.SPEC_PRELUDE)),
+                  contract='Lean 4 + Mathlib accept: ' + '; '.join('%s (%s)' % (l.name, l.doc) for l in CL.POWMOD)))
+    mm_exact = dict(requires=[mm_pre], ensures=['%s == SPEC_mulmod(v_a, v_b, v_n)' % RV, '%s < v_n' % RV], assigns='')
+    pm = M['pow_mod']
+    pm_inv = ['m_n_addr > 1 && m_result < m_n_addr && m_base_addr < m_n_addr',
+              'SPEC_mulmod(m_result, SPEC_powmod(m_base_addr, m_exp_addr, m_n_addr), m_n_addr) == SPEC_powmod(vf_ghost[0], vf_ghost[1], m_n_addr)']
+    obs.append(Ob(id='C12.exact.pow_mod', prop='C12', group='C12', prelude=PRE, wrappers=WRAPS, inputs=[('uint64_t', 'base'), ('uint64_t', 'exp'), ('uint64_t', 'n')],
+                  body="""
+  ASSUME(n > 1);
+  vf_ghost[0] = base; vf_ghost[1] = exp;
+  ASSUME(%s);   /* lemma pm_entry at (base, exp, n) */
+  uint64_t r = TARGET(base, exp, n);
+  CHECK(r == SPEC_powmod(base, exp, n), "result-is-the-exact-residue-base-to-the-exp-mod-n");
+  CHECK(r < n, "result-is-below-n");
+""" % CL.pm_entry.inst(b0='base', e0='exp', n='n'),
+                  kind='L', promote=False, wrap=True, budget=300, defs=('LL2C_UF_ARITH=1',), needs=('C12.lemmas.powmod',),
+                  dfcc=dict(target=pm, replace=[mm],
+                            contracts={pm: dict(requires=['v_n > 1'], ensures=[], assigns='',
+                                                loops={0: dict(invariant=pm_inv, decreases='m_exp_addr', assigns='m_result, m_base_addr, m_exp_addr',
+                                                               lemmas=[CL.pm_step.inst(r='m_result', b='m_base_addr', e='m_exp_addr', n='m_n_addr'),
+                                                                       CL.pm_exit.inst(r='m_result', b='m_base_addr', n='m_n_addr')])}),
+                                       mm: mm_exact}),
+                  contract='pow_mod(base,exp,n), n > 1, returns EXACTLY base^exp mod n: loop invariant result * (base^exp mod n) = base0^exp0 (mod n), result < n, base < n; '
+                           'every mul_mod call meets mul_mod\'s precondition and mul_mod is replaced by its EXACT contract (C12.exact.mul_mod); base %= n does not divide by zero; '
+                           'terminates (decreases exp). Arithmetic by lemmas pm_entry, pm_step, pm_exit (Lean)',
+                  functions_under_contract=('au::detail::pow_mod',)))
     # find_prime_factor: every return path hands out a table prime that divides n, n itself (trial division exhausted or is_prime(n)), or a value for which
     # is_prime has just answered true.  is_prime is under its purity contract (a deterministic predicate), find_pollard_rho_factor under `no guarantee at all`.
     fpf = M['find_prime_factor']; ISP = 'f_' + M['is_prime']
@@ -233,16 +274,6 @@ def obligations(tier, seed):
     # is_perfect_square: Newton iteration from above.  Invariant: prev >= isqrt(n) (stated as (prev+1)^2 > n) and prev <= n/2 + 1, hence n / prev never divides by zero
     # and prev + n / prev does not wrap.  curr*curr is a deliberately wrapping product in the source: not checked here (wrap=False), see DESIGN.md 10.2.
     ips = M['is_perfect_square']
-    if tier == 'thorough': obs.append(Ob(id='C12.guarded.is_perfect_square', prop='C12', group='C12', prelude=PRE, wrappers=WRAPS, inputs=[('uint64_t', 'n')], body='''
-  _Bool r = TARGET(n);
-  CHECK(r == 0 || r == 1, "returns");
-''', kind='L', promote=False, wrap=False, budget=900,
-                  dfcc=dict(target=ips, contracts={ips: dict(requires=[], ensures=[], assigns='',
-                            loops={0: dict(invariant=['m_prev >= 1', 'm_n_addr >= 2', 'm_prev <= m_n_addr / 2 + 1',
-                                                      '((unsigned __int128)m_prev + 1) * ((unsigned __int128)m_prev + 1) > m_n_addr'],
-                                           assigns='m_prev, m_curr, m_retval')})}),
-                  contract='is_perfect_square(n): no division by zero on any path (loop invariant prev >= 1, (prev+1)^2 > n, prev <= n/2+1); no variant (termination not claimed); '
-                           'that the answer is correct stays ASSUMED', functions_under_contract=('au::detail::is_perfect_square',)))
     hD = '  struct S_struct_au__detail__LucasDParameter *d;\n  f_%s(d);'
     obs.append(D('C12.contract.as_int', 'as_int', hD % M['as_int'], wrap=False,
                  contract_text='as_int(D): requires D.mag < 2^31; ensures +/- mag; the int multiplication does not overflow'))
